@@ -200,14 +200,14 @@ type Config struct {
 
 // CycleScript is the environment's behaviour after one scheduler cycle, and the faults injected in it.
 type CycleScript struct {
-	BindMode        int `json:"bindMode"`        // 0 all succeed, 1 none progress, 2 per-pod hash, 3 all fail
-	KeepRequests    bool `json:"keepRequests"`   // succeeded BindRequests stay (phase Succeeded) instead of being deleted
-	TermLinger      int `json:"termLinger"`      // cycles a terminating pod survives (0 = gone before next cycle)
-	FailBindCreate  int `json:"failBindCreate"`  // fail the k-th BindRequest create of the cycle (0 = none)
-	FailEvictCall   int `json:"failEvictCall"`   // make the k-th Cache.Evict return an error (0 = none)
-	FailPodDelete   int `json:"failPodDelete"`   // fail the k-th pod delete API call (0 = none)
+	BindMode        int  `json:"bindMode"`        // 0 all succeed, 1 none progress, 2 per-pod hash, 3 all fail
+	KeepRequests    bool `json:"keepRequests"`    // succeeded BindRequests stay (phase Succeeded) instead of being deleted
+	TermLinger      int  `json:"termLinger"`      // cycles a terminating pod survives (0 = gone before next cycle)
+	FailBindCreate  int  `json:"failBindCreate"`  // fail the k-th BindRequest create of the cycle (0 = none)
+	FailEvictCall   int  `json:"failEvictCall"`   // make the k-th Cache.Evict return an error (0 = none)
+	FailPodDelete   int  `json:"failPodDelete"`   // fail the k-th pod delete API call (0 = none)
 	RecreateEvicted bool `json:"recreateEvicted"` // closed-system mode: evicted pods come back as new pending pods
-	Salt            int `json:"salt"`
+	Salt            int  `json:"salt"`
 }
 
 type World struct {
